@@ -15,7 +15,7 @@ ASSUMPTIONS = [
     "solvability = completion within 8n+60 mask-confined steps under two chooser regimes",
     "DPP/MDPP generators need chip data files that are unavailable offline: not covered",
 ]
-REQUIRED_COUNTERS = ["c18_batches", "c18_predicates", "c18_episodes", "c18_initial_solutions"]
+REQUIRED_COUNTERS = ["c18_retasked_generators", "c18_batches", "c18_predicates", "c18_episodes", "c18_initial_solutions"]
 MIN_NONTRIVIAL = {"quick": 400, "thorough": 6000}
 WORKERS = {"quick": 14, "thorough": 16}
 BUDGET_S = {"quick": 400, "thorough": 3000}
@@ -90,6 +90,16 @@ def cases(tier, seed):
         for r in range(reps * 2):
             n_ = rnd.choice([6, 10, 20])
             out.append(dict(cfg=dict(env=env_, n=n_, sweep="|".join(f"{k}={v}" for k, v in sorted(gp.items()) if k != "variant_preset"), **extra), gp=gp, B=16, s=rnd.randrange(10**6)))
+    # generator objects re-parameterised between batches (meta-learning over sizes: new num_loc and capacity on the same object)
+    for env_ in ("cvrp", "sdvrp", "cvrptw", "tsp"):
+        for (n1, n2) in ((10, 20), (20, 50), (50, 10), (20, 33)):
+            for r in range(reps):
+                import math as _m
+
+                rt = dict(num_loc=n2)
+                if env_ != "tsp":
+                    rt["capacity"] = float(_m.ceil(30 + n2 / 5) if n2 >= 20 else 20)
+                out.append(dict(cfg=dict(env=env_, n=n1, **({"scale": False} if env_ == "cvrptw" else {})), retask=rt, B=16, s=rnd.randrange(10**6)))
     for sp in (0.5, 1.5, 2.0):
         for preset in ("vrptw", "vrpltw", "ovrpbltw", "all"):
             for r in range(reps):
